@@ -159,6 +159,13 @@ pub fn run(ctx: &mut Ctx) {
                             }
                             3 => c.use_alpha = !c.use_alpha,
                             4 => c.content = gen_content(&mut rng, pt_kind(c.pt)),
+                            5 if rng.chance(1, 2) => {
+                                // the destination a few percent bigger or smaller (a decision with memory, e.g. a threshold with
+                                // hysteresis, answers differently than for the same call on a fresh object)
+                                let f = 1.0 + (rng.unit() - 0.5) * 0.1;
+                                c.dw = ((c.dw as f64 * f).round() as u32).max(1);
+                                c.dh = ((c.dh as f64 * f).round() as u32).max(1);
+                            }
                             _ => {
                                 c.alg = match c.alg {
                                     Alg::Conv(f) => Alg::Interp(f),
@@ -169,6 +176,33 @@ pub fn run(ctx: &mut Ctx) {
                             }
                         }
                         stats_near += 1;
+                    }
+                    if !miri && rng.chance(1, 12) {
+                        // SuperSampling with scale / multiplicity just above or below 1.2 (where it switches between one and two steps)
+                        let m = rng.range(1, 3) as u8;
+                        let f = *rng.pick(&[Filt::Box, Filt::Bilinear, Filt::Hamming]);
+                        let d = rng.range(8, 40) as u32;
+                        let factor = 1.2 * m as f64 * (0.93 + 0.14 * rng.unit());
+                        c.sw = ((d as f64 * factor).round() as u32).max(1);
+                        c.sh = c.sw;
+                        c.dw = d;
+                        c.dh = d;
+                        c.crop = Crop::None;
+                        c.alg = Alg::Super(f, m);
+                        if let Some(p) = &prev {
+                            if let Alg::Super(_, pm) = p.alg {
+                                if pm == m && rng.chance(2, 3) {
+                                    // same source as the previous call, destination within a few percent
+                                    c.pt = p.pt;
+                                    c.sw = p.sw;
+                                    c.sh = p.sh;
+                                    let g = 1.0 + (rng.unit() - 0.5) * 0.09;
+                                    c.dw = ((p.dw as f64 * g).round() as u32).max(1);
+                                    c.dh = c.dw;
+                                }
+                            }
+                        }
+                        c.content = gen_content(&mut rng, pt_kind(c.pt));
                     }
                     let phase = (k * 4 / len) % 2;
                     if phase == 1 && !miri && prev.as_ref().map_or(true, |p| p.sw != c.sw || p.pt != c.pt) {
